@@ -125,13 +125,18 @@ def gen_ctx_consts():
 NAME_ID = {"file": 1, "apps": 2, "modules": 3, "scripts": 4, "__init__": 5, "__all__": 900, "_u": 901, "_v": 902}
 _POOLS = {
     10: ["a", "b", "c", "s1", "m1", "m2", "pkg", "sib", "other", "app1", "app2", "helper"],
-    100: ["g", "h", "k", "cnt", "x", "y", "z", "r", "e1", "e2", "last"],
+    100: ["g", "h", "k", "cnt", "x", "y", "z", "r", "e1", "e2", "last", "cx", "cy"],
     200: ["bump", "setg", "get", "boom", "chain", "loc", "early", "tsk", "tf", "tg", "f1", "f2", "f3", "imp"],
+    250: ["q1", "q2"],          # functions defined as `def q(p):` (Interp/Ctx.v needs_arg)
     300: ["ma", "mb", "mc", "md", "lm", "t", "u", "fa", "fb", "fc", "fd"],
 }
 for _base, _names in _POOLS.items():
     for _i, _n in enumerate(_names):
         NAME_ID[_n] = _base + _i
+
+
+QFUNCS = ("q1", "q2")
+LOCAL_ONLY = ["t", "u", "lm"]     # names the generator only ever uses as function locals
 
 
 def nid(s):
@@ -159,6 +164,8 @@ def r_expr(e):
         return f"{e[1]} + {e[2]}"
     if k == "attr":
         return f"{e[1]}.{e[2]}"
+    if k == "ctx":
+        return "pyscript.get_global_ctx()"
     raise ValueError(e)
 
 
@@ -194,7 +201,7 @@ def r_stmt(s, ind, ctxname):
         out = []
         if trig:
             out.append(f'{ind}@event_trigger("{ev_name(ctxname, f)}")')
-        out.append(f"{ind}def {f}(**kw):")
+        out.append(f"{ind}def {f}(p):" if f in QFUNCS else f"{ind}def {f}(**kw):")
         if gl:
             out.append(f"{ind}    global " + ", ".join(gl))
             out += r_block(body, ind + "    ", ctxname) if body else []
@@ -226,6 +233,10 @@ def r_stmt(s, ind, ctxname):
         return [f"{ind}from {'.' * s[1]} import {r_items(s[2])}"]
     if k == "setctx":
         return [f'{ind}pyscript.set_global_ctx("{s[1]}")']
+    if k == "callbad":
+        # an argument list that cannot be bound: extra positional for `def f(**kw)`, unexpected keyword (and missing p) for `def q(p)`
+        c = s[1]
+        return [f"{ind}{r_cref(c)}(zz=1)" if c[-1] in QFUNCS else f"{ind}{r_cref(c)}(1)"]
     raise ValueError(s)
 
 
@@ -247,6 +258,8 @@ def c_expr(e):
         return f"(EAddLit {q.N(nid(e[1]))} {q.Z(e[2])})"
     if k == "attr":
         return f"(EAttr {q.N(nid(e[1]))} {q.N(nid(e[2]))})"
+    if k == "ctx":
+        return "ECtx"
     raise ValueError(e)
 
 
@@ -292,6 +305,8 @@ def c_stmt(s):
         return f"SFromDot {q.nat(s[1])} {c_items(s[2])}"
     if k == "setctx":
         return f"SSetCtx {qpath(s[1])}"
+    if k == "callbad":
+        return f"SCallBad {c_cref(s[1])}"
     raise ValueError(s)
 
 
@@ -370,6 +385,8 @@ def q_oval(v):
         return f"OFun {qpath_lenient(v[1])} {q.N(NAME_ID.get(v[2], 999))}"
     if k == "m":
         return f"OMod {qpath_lenient(v[1])}"
+    if k == "s":
+        return f"OStr {qpath_lenient(v[1])}"
     return "OOther"
 
 
@@ -410,7 +427,12 @@ class Gen:
         kinds = rng.sample(["bump", "setg", "get", "boom", "loc", "early", "chain", "tsk"], rng.randint(2, 5))
         if importable and rng.random() < 0.35:
             kinds.append("imp")
+        if rng.random() < 0.3:
+            kinds.append("q1")
         names = []
+        # a bare imported name that this file also defines resolves to the file's own function at call time: never call it
+        # from a body (the own call graph must stay acyclic - only earlier own functions are called)
+        callees = [c for c in callees if not (c[0] == "n" and c[1] in kinds)]
         for kd in kinds:
             a, b = rng.choice(ints), rng.choice(ints)
             if kd == "bump":
@@ -437,6 +459,8 @@ class Gen:
                 else:
                     gl = [a]
                 body = [["assign", a, ["add", a, 20]], inner, ["assign", a, ["add", a, 1]]]
+            elif kd == "q1":
+                body, gl = [["assign", a, ["add", a, 50]]], [a]     # never runs: every generated call of q1 fails to bind
             elif kd == "imp":
                 # an import executed inside a function body: binds a local, and the importer is the *defining* context
                 m = rng.choice(list(importable))
@@ -514,7 +538,7 @@ class Gen:
             crefs = []
             for p in picks:
                 b = p
-                if rng.random() < 0.25:
+                if rng.random() < 0.25 and p not in QFUNCS:
                     b = rng.choice(["fa", "fb", "fc", "fd"])
                 items.append([p, b])
                 if p in ex["funcs"]:
@@ -566,7 +590,12 @@ class Gen:
                 if rng.random() < 0.6:
                     st = ["try", [st], [["assign", "e1", ["add", "e1", 1]]]]
                 body.append(st)
-            gl = [x for x in ("r", "last", "e1")]
+                if rng.random() < 0.35:
+                    # a cross-file call whose arguments cannot be bound, caught by the caller, then the caller's own globals
+                    a = rng.choice(ints)
+                    body += [["try", [["callbad", rng.choice(callees)]], [["assign", "e1", ["add", "e1", 1]]]],
+                             ["assign", a, ["add", a, 1]], ["assign", "cx", ["ctx"]]]
+            gl = ["r", "last", "e1", "cx"] + ints
             prog.append(["assign", "e1", ["lit", 0]])
             prog.append(["def", "f1", gl, body, False])
             own.append(["n", "f1"])
@@ -581,6 +610,9 @@ class Gen:
                 if c is None:
                     break
                 kind = rng.random()
+                if kind < 0.15 and callees:
+                    body += [["try", [["callbad", rng.choice(callees)]], [["assign", "x", ["add", "x", 1]]]], ["assign", "cx", ["ctx"]]]
+                    continue
                 if kind < 0.25:
                     st = ["task", c]
                 else:
@@ -591,7 +623,7 @@ class Gen:
             a = rng.choice(ints)
             body.append(["assign", a, ["add", a, 1000]])
             prog.append(["assign", "x", ["lit", 0]])
-            prog.append(["def", tname, [a, "x"], body, True])
+            prog.append(["def", tname, [a, "x", "cx"], body, True])
             self.fires.append([info["ctx"], tname])
         # top-level actions
         mods = [c for c in callees if c[0] == "a"]
@@ -612,6 +644,10 @@ class Gen:
             elif r < 0.83 and [c for c in mods if c[1] not in unsafe]:
                 m = rng.choice([c for c in mods if c[1] not in unsafe])[1]
                 prog.append(["attrassign", m, rng.choice(GLOBALS), ["lit", rng.randint(50, 59)]])
+            elif r < 0.86 and callees:
+                a = rng.choice(ints)
+                prog += [["try", [["callbad", rng.choice(callees)]], [["assign", "z", ["lit", 2]]]],
+                         ["assign", a, ["add", a, 1]], ["assign", "cy", ["ctx"]]]
             elif r < 0.9:
                 a = rng.choice(ints)
                 prog.append(["assign", a, ["add", rng.choice(GLOBALS), 1]])     # may read a name this file never defined
@@ -685,6 +721,150 @@ def gen_case(rng, with_setctx=False):
 NAME_ID.setdefault("nonexistent", 399)
 
 
+def gen_setctx_case(rng):
+    """pyscript.set_global_ctx executed at call depth 0..3 of a chain of functions of one file (started from module level, from
+    a trigger or from a created task), followed on the way back by local and global reads/writes at every level"""
+    depth = rng.choice([0, 1, 2, 3])
+    start = rng.choice(["module", "trigger", "task"])
+    use_mod = rng.random() < 0.5
+    files = []
+    if use_mod:
+        files.append({"path": "modules/m1.py", "prog": [["assign", n, ["lit", rng.randint(10, 19)]] for n in GLOBALS] +
+                      [["def", "bump", ["cnt"], [["assign", "cnt", ["add", "cnt", 1]]], False]]})
+    files.append({"path": "a.py", "prog": [["assign", n, ["lit", rng.randint(20, 29)]] for n in GLOBALS] +
+                  ([["import", "m1", "m1"]] if use_mod and rng.random() < 0.7 else [])})
+    target = rng.choice(["file.a"] + (["modules.m1"] if use_mod else []) + (["file.nonexistent"] if rng.random() < 0.1 else []))
+    sw = ["setctx", target]
+
+    def level(k, nxt):
+        """body of the function running at call depth k (1..3); nxt = name of the function it calls (or None)"""
+        a, b = rng.choice(GLOBALS), rng.choice(GLOBALS)
+        body = [["assign", "t", ["lit", 10 * k]]]
+        if depth == k:
+            body.append(sw)
+        if nxt:
+            body.append(["call", rng.choice([None, "u"]), ["n", nxt]] if rng.random() < 0.7 else ["try", [["call", None, ["n", nxt]]], [["assign", "t", ["add", "t", 500]]]])
+        body += [["assign", "t", ["add", "t", 1]], ["assign", a, ["name", "t"]], ["assign", "u", ["add", b, 1]], ["assign", b, ["add", "u", 100]],
+                 ["assign", rng.choice(["cx", "cy"]), ["ctx"]]]
+        if rng.random() < 0.3:
+            body.append(["return", ["name", "t"]])
+        if rng.random() < 0.15:
+            body.append(["raise"])
+        return ["def", {1: "f1", 2: "f2", 3: "f3"}[k], sorted({a, b, "cx", "cy"}), body, False]
+
+    prog = [["assign", n, ["lit", rng.randint(0, 9)]] for n in GLOBALS]
+    if use_mod and rng.random() < 0.5:
+        prog.append(["from", "m1", 0, [["bump", "bump"]]])
+    prog += [level(3, None), level(2, "f3"), level(1, "f2")]
+    fires = []
+    run = []
+    if depth == 0:
+        run.append(sw)
+    entry = rng.choice(["f1", "f1", "f2"])
+    if start == "module":
+        run.append(["call", None, ["n", entry]] if rng.random() < 0.6 else ["try", [["call", None, ["n", entry]]], [["assign", "z", ["lit", 1]]]])
+    elif start == "task":
+        run.append(["task", ["n", entry]])
+    else:
+        a = rng.choice(GLOBALS)
+        prog.append(["def", "tf", [a, "cx"], ([sw] if depth == 0 else []) + [["assign", "t", ["lit", 1]], ["call", None, ["n", entry]],
+                                              ["assign", "t", ["add", "t", 1]], ["assign", a, ["add", a, 1000]], ["assign", "cx", ["ctx"]]], True])
+        fires.append(["file.b", "tf"])
+        run = []
+    a = rng.choice(GLOBALS)
+    run += [["assign", a, ["add", a, 1]], ["assign", "y", ["name", rng.choice(GLOBALS)]], ["assign", "cy", ["ctx"]]]
+    if rng.random() < 0.3 and use_mod:
+        run.append(["call", None, ["n", "bump"]])
+    files.append({"path": "b.py", "prog": prog + run})
+    if rng.random() < 0.5:
+        files.append({"path": "c.py", "prog": [["assign", n, ["lit", rng.randint(30, 39)]] for n in GLOBALS] + [["assign", "cy", ["ctx"]]]})
+    return {"legacy": rng.random() < 0.5, "files": files, "apps": [], "fires": fires + (fires if rng.random() < 0.3 else [])}
+
+
+# ---- static validation of a generated configuration: the property's quantifier is about acyclic import edges and
+# ---- terminating programs, so a configuration with an import cycle or a recursive call cycle is never emitted
+def _walk(prog, fn, in_def=None):
+    for s in prog:
+        fn(s, in_def)
+        k = s[0]
+        if k == "def":
+            _walk(s[3], fn, s[1])
+        elif k == "if":
+            _walk(s[2], fn, in_def)
+            _walk(s[3], fn, in_def)
+        elif k == "try":
+            _walk(s[1], fn, in_def)
+            _walk(s[2], fn, in_def)
+
+
+def _has_cycle(graph):
+    state = {}
+
+    def visit(n):
+        if state.get(n) == 1:
+            return True
+        if state.get(n) == 2:
+            return False
+        state[n] = 1
+        for m in graph.get(n, ()):
+            if visit(m):
+                return True
+        state[n] = 2
+        return False
+
+    return any(visit(n) for n in list(graph))
+
+
+def static_ok(case):
+    """no cycle in the import graph (every import statement, also inside function bodies, absolute or relative) and no
+    cycle in any file's own call graph (calls by bare name to functions the file defines)"""
+    ctx_of_file = {}
+    for f in case["files"]:
+        info = file_info(f["path"])
+        ctx_of_file[f["path"]] = info
+    known = {info["ctx"] for info in ctx_of_file.values()}
+    imports = {}
+    for f in case["files"]:
+        info = ctx_of_file[f["path"]]
+        me = info["ctx"]
+        parts = me.split(".")
+        pkg = parts if info["relimp"] else parts[:-1]       # package of this file (conformant naming)
+        edges = set()
+
+        def imp(s, _d, edges=edges, pkg=pkg):
+            k = s[0]
+            targets = []
+            if k == "import":
+                targets = [(s[1], 0)]
+            elif k in ("from", "star"):
+                targets = [(s[1], s[2])]
+            elif k == "fromdot":
+                targets = [(n, s[1]) for n, _b in s[2]]
+            for name, level in targets:
+                if level == 0:
+                    for root in ("apps", "modules"):
+                        edges.add(root + "." + name)
+                else:
+                    base = pkg[: len(pkg) - (level - 1)] if level - 1 <= len(pkg) else []
+                    edges.add(".".join(base + [name]))
+                    edges.add(me + "." + name)            # the name the unchanged code derives (D110)
+
+        _walk(f["prog"], imp)
+        imports[me] = {e for e in edges if e in known}
+        defs = {s[1] for s in f["prog"] if s[0] == "def"}
+        calls = {}
+
+        def call(s, d, calls=calls, defs=defs):
+            c = s[2] if s[0] == "call" else s[1] if s[0] == "task" else None
+            if c is not None and d is not None and c[0] == "n" and c[1] in defs:
+                calls.setdefault(d, set()).add(c[1])
+
+        _walk(f["prog"], call)
+        if _has_cycle(calls):
+            return False
+    return not _has_cycle(imports)
+
+
 def fixed_cases():
     """small hand-written configurations run on every check (both subsystems)"""
     inc = lambda a: ["assign", a, ["add", a, 1]]
@@ -725,16 +905,18 @@ class CtxStream(Stream):
     check_spec = "ccase_spec_ok"
     attrib = "ccase_attrib pv_cfg"
     explain = "ccase_explain pv_cfg"
-    shard_size = 40
+    shard_size = 25
 
     def budget(self, tier):
-        return 240 if tier == "quick" else 3000
+        return 200 if tier == "quick" else 3000
 
     def generate(self, ctx, budget, focus=None):
         rng = ctx.rng
         cases = fixed_cases()
         while len(cases) < budget:
-            cases.append(gen_case(rng, with_setctx=rng.random() < 0.08))
+            c = gen_setctx_case(rng) if rng.random() < 0.15 else gen_case(rng, with_setctx=rng.random() < 0.08)
+            if static_ok(c):
+                cases.append(c)
         return cases
 
     def run_impl(self, ctx, cases):
@@ -762,7 +944,8 @@ class CtxStream(Stream):
         auto.sort()
         ops = [t for _c, t in auto] + [f"OpTrig {qpath(c)} {q.N(nid(f))}" for c, f in case["fires"]]
         oracle = q.option(q_tables(obs["oracle"]) if obs.get("oracle") is not None else None)
-        return "{| cc_fs := %s; cc_ops := %s; cc_obs := %s; cc_oracle := %s |}" % (q.lst(fs), q.lst(ops), q_tables(obs["tables"]), oracle)
+        return "{| cc_fs := %s; cc_ops := %s; cc_obs := %s; cc_oracle := %s; cc_locals := %s |}" % (
+            q.lst(fs), q.lst(ops), q_tables(obs["tables"]), oracle, q.lst(q.N(nid(x)) for x in LOCAL_ONLY))
 
     def nontrivial(self, case, obs):
         tabs = obs.get("tables", {})
@@ -790,7 +973,7 @@ class CtxStream(Stream):
     def describe(self, case, obs):
         return {"legacy": case["legacy"], "sources": {f["path"]: render(f["prog"], file_info(f["path"])["ctx"]) for f in case["files"]},
                 "fires": case["fires"], "pyscript_tables": obs.get("tables"), "cpython_tables": obs.get("oracle"),
-                "dup_module_objects": obs.get("dup_module_objects"), "errors": obs.get("errors")}
+                "dup_module_objects": obs.get("dup_module_objects"), "errors": obs.get("errors"), "hang": obs.get("hang", False)}
 
 
 class C11(Prop):
